@@ -786,10 +786,56 @@ def r_conditional_passthrough(c):
         raise AnalysisError(f"only {n} conditional pass-throughs found (floor 2)")
 
 
+def r_cache_answer(c):
+    """sharing is preserved only if a traversal continues with what the cache hands
+    back: `add` may answer with an equal object that was cached earlier, and that
+    object, not the freshly built one, is the result.  Every call of
+    _cache_add / _function_cache_add / <cache>.add with a computed result is
+    therefore returned (directly, or through a local that is returned unchanged);
+    a call that stores a constant marker is a different idiom and is left alone"""
+    m = c.model
+    n = 0
+    mods = [x for x in m.modules if x.startswith("pytato.transform")
+            or x in ("pytato.analysis", "pytato.codegen", "pytato.distributed.partition")]
+    for mi, fd in m.all_functions(modules=mods):
+        for call in ast.walk(fd):
+            if not (isinstance(call, ast.Call) and isinstance(call.func, ast.Attribute)):
+                continue
+            f = ast.unparse(call.func)
+            if not (f in ("self._cache_add", "self._function_cache_add")
+                    or f in ("self._cache.add", "self._function_cache.add")):
+                continue
+            if len(call.args) < 2 or isinstance(call.args[1], ast.Constant):
+                continue
+            n += 1
+            par = call._parent
+            ok = isinstance(par, ast.Return)
+            if isinstance(par, ast.Assign) and len(par.targets) == 1 \
+                    and isinstance(par.targets[0], ast.Name):
+                v = par.targets[0].id
+                later = [x for x in ast.walk(fd) if isinstance(x, ast.Return)
+                         and x.value is not None and ast.unparse(x.value) == v
+                         and x.lineno >= par.lineno]
+                re_ = [a for a in ast.walk(fd) if isinstance(a, ast.Assign) and a is not par
+                       and a.lineno > par.lineno and any(
+                           isinstance(t, ast.Name) and t.id == v for t in a.targets)]
+                ok = bool(later) and not re_
+            qn = m.qualname(fd).replace("pytato.", "", 1)
+            c.check(ok, "R13-COLLISION", qn, f"returns-what-the-cache-hands-back:{f}",
+                    m.loc(mi, call),
+                    f"the value of `{m.frag(call, 50)}` is dropped and the freshly computed "
+                    "object is used instead: when an equal result was cached earlier the "
+                    "cache answers with THAT object; ignoring the answer gives one shared "
+                    "node two different result objects (sharing is lost)")
+    if n < 5:
+        raise AnalysisError(f"only {n} cache insertions with a computed result found (floor 5)")
+
+
 SPEC = Spec(
     prop="C13",
     rules=[r_children, r_children_overrides, r_once, r_key, r_collision, r_clone,
-           r_eq_memo, r_state, r_shared_or, r_visit_tables, r_conditional_passthrough],
+           r_eq_memo, r_state, r_shared_or, r_visit_tables, r_conditional_passthrough,
+           r_cache_answer],
     floors={"R13-CHILDREN": 212, "R13-ONCE": 14, "R13-KEY": 20, "R13-COLLISION": 8,
             "R13-DOUBLE-CACHE": 7, "R13-CHILDREN-OVR": 20, "R13-CLONE": 12,
             "R13-EQ-MEMO": 22, "R13-STATE": 7},
